@@ -10,8 +10,11 @@ Tie     : extracted facts (INVALID_MODULE_CHARS ranges, validation before __impo
           (result / exception class, sequence of __import__ calls made by the translator, parsed|parseError).
 Monitor : from the property statement.  Observation of one decoding (`observe`): a process-wide audit hook
           collecting `import` events raised while jsonclass.load is on the stack, a wrapper of builtins.__import__
-          recording the calls made by jsonrpclib.jsonclass, and a **canary module** (a file in a mktemp directory on
-          sys.path that appends to a file when imported, with a class that appends when constructed).
+          recording the *dynamic* imports made by jsonrpclib.jsonclass (`__import__(name, …)` calls — a static
+          `import x` statement of an already loaded module whose name has nothing to do with the payload is not an
+          effect of decoding and is ignored), the modules that appear in sys.modules during the call, and a **canary
+          module** (a file in a mktemp directory on sys.path that appends to a file when imported, with a class that
+          appends when constructed).
           * flag off: the decoded value equals json.loads of the text (client: jsonrpclib.loads and a real
             ServerProxy over a LoopTransport; server: what the registered method receives), nothing is imported
             or constructed; jsonrpc.dump leaves the parameters untouched (no handler, no class translation);
@@ -39,11 +42,11 @@ from jsonrpclib.SimpleJSONRPCServer import SimpleJSONRPCDispatcher
 
 REQUIRED_THEOREMS = [
     "C08_inert", "C08_inert_effects", "C08_rpcLoad_res", "C08_inert_loads", "C08_inert_dump", "C08_allowed_iff",
-    "C08_allowed_generated", "C08_validName_iff", "C08_nameAccepted_iff", "C08_reject_before_import",
+    "C08_validName_iff", "C08_nameAccepted_iff", "C08_reject_before_import",
     "C08_reject_before_import_list", "C08_malformed", "C08_failure_at_depth", "C08_reject_at_depth",
     "C08_malformed_at_depth", "C08_imports_validated", "C08_server_32700", "C08_server_32700_malformed_json",
-    "C08_server_rejects_bad_descriptor", "C08_gen_moduleCharClass", "C08_gen_validationPrecedesImport",
-    "C08_gen_useJsonclassGates", "C08_gen_loadsCallsLoad", "C08_gen_loadsGuarded",
+    "C08_server_rejects_bad_descriptor", "C08_gen_moduleCharClass", "C08_gen_allowed", "C08_gen_validationPrecedesImport",
+    "C08_gen_useJsonclassGates", "C08_gen_loadsCallsLoad", "C08_gen_loadsGuarded", "C08_gen_configCallSites",
 ]
 
 ALPHABET = ["a", "Z", "0", "_", ".", "-", " ", "\n", "é", "ａ"]
@@ -103,30 +106,62 @@ class Obs(object):
     pass
 
 
+def payload_strings(v, acc=None):
+    """Every string of a payload (keys included)."""
+    acc = set() if acc is None else acc
+    if isinstance(v, str):
+        acc.add(v)
+    elif isinstance(v, dict):
+        for k, x in v.items():
+            payload_strings(k, acc)
+            payload_strings(x, acc)
+    elif isinstance(v, (list, tuple)):
+        for x in v:
+            payload_strings(x, acc)
+    return acc
+
+
+def derived_from(module, strings):
+    """Is the module name taken from the payload: a string of it, or a dotted prefix of one?"""
+    return bool(module) and any(s == module or s.startswith(module + ".") for s in strings)
+
+
 def observe(fn, *args, **kwargs):
-    """Runs fn and reports: outcome, the __import__ calls made by jsonrpclib.jsonclass, the audit `import` events raised
-    under jsonclass.load, whether the canary module was imported / its class constructed."""
+    """Runs fn and reports: outcome (BaseException included: a constructor may call sys.exit), the imports made by
+    jsonrpclib.jsonclass — `dynamic` ones (`__import__(name, …)`: no globals) and `static` ones (import statements) —
+    the audit `import` events raised under jsonclass.load, the modules that appeared in sys.modules, whether the
+    canary module was imported / its class constructed."""
+    payload = kwargs.pop("_payload", None)
     sys.modules.pop(CANARY, None)
     size0 = canary_size()
-    calls = []
+    dynamic = []
+    static = []
     orig = builtins.__import__
 
     def recording_import(name, globals=None, locals=None, fromlist=(), level=0):
         if sys._getframe(1).f_globals.get("__name__") == "jsonrpclib.jsonclass":
-            calls.append(name)
+            (dynamic if globals is None else static).append(name)
         return orig(name, globals, locals, fromlist, level)
 
     _AUDIT["events"] = []
+    before = set(sys.modules)
     builtins.__import__ = recording_import
     _AUDIT["on"] = True
     try:
-        k, v = impl.outcome(fn, *args, **kwargs)
+        try:
+            k, v = impl.outcome(fn, *args, **kwargs)
+        except BaseException as ex:  # noqa: BLE001  (SystemExit / KeyboardInterrupt raised by a constructor)
+            k, v = "err", ex
     finally:
         _AUDIT["on"] = False
         builtins.__import__ = orig
     o = Obs()
     o.kind, o.value = k, v
-    o.calls = calls
+    o.new_modules = sorted(m for m in set(sys.modules) - before if m != CANARY)
+    strings = payload_strings(payload) if payload is not None else set()
+    # a static import counts when it loaded something new or when its name comes from the payload
+    o.calls = dynamic + [m for m in static if m not in before or derived_from(m, strings)]
+    o.static_ignored = [m for m in static if m in before and not derived_from(m, strings)]
     o.events = list(_AUDIT["events"])
     o.canary = ""
     if canary_size() != size0:
@@ -157,14 +192,23 @@ def descriptors(v, acc=None):
     return acc
 
 
+def descriptor_name(j):
+    """(well-shaped?, class name) of a "__jsonclass__" member as `member[0]`, `member[1]` evaluate."""
+    if isinstance(j, (list, tuple)) and len(j) >= 2 and isinstance(j[0], str):
+        return True, j[0]
+    if isinstance(j, str) and len(j) >= 2:
+        return True, j[0]  # Python indexes strings too: name = j[0]
+    if isinstance(j, dict) and 0 in j and 1 in j and isinstance(j[0], str):
+        return True, j[0]  # keys 0 and 1: only through a direct call (JSON keys are strings)
+    return False, None
+
+
 def shape(d):
     """'valid' | 'invalid-name' (well-formed, name empty or with a character outside [a-zA-Z0-9_.]) | 'malformed'"""
-    j = d["__jsonclass__"]
-    if isinstance(j, list) and len(j) >= 2 and isinstance(j[0], str):
-        return "valid" if name_ok(j[0]) else "invalid-name"
-    if isinstance(j, str) and len(j) >= 2:
-        return "valid" if name_ok(j[0]) else "invalid-name"  # Python indexes strings too: name = j[0]
-    return "malformed"
+    ok, name = descriptor_name(d["__jsonclass__"])
+    if not ok:
+        return "malformed"
+    return "valid" if name_ok(name) else "invalid-name"
 
 
 def allowed_imports(payload):
@@ -173,7 +217,7 @@ def allowed_imports(payload):
     for d in descriptors(payload):
         if shape(d) != "valid":
             continue
-        name = d["__jsonclass__"][0]
+        name = descriptor_name(d["__jsonclass__"])[1]
         tree = ".".join(name.split(".")[:-1])
         out.add(tree)
         out.add(name)  # __import__(tree, fromlist=[cls]) also looks for a submodule called like the class
@@ -185,7 +229,8 @@ def allowed_imports(payload):
 
 def check_imports(ctx, case, o, payload, flag, where):
     allowed = allowed_imports(payload) if flag else set()
-    bad = [m for m in o.calls + o.events if m not in allowed]
+    # with no valid descriptor in the payload (or with the flag off) no module at all may get loaded
+    bad = [m for m in o.calls + o.events + ([] if allowed else o.new_modules) if m not in allowed]
     if bad:
         ctx.violate(case, "%s: module(s) %r imported although no descriptor with a valid class name names them "
                           "(use_jsonclass=%s; __import__ calls %r, audit events %r)" % (where, bad, flag, o.calls, o.events),
@@ -196,10 +241,13 @@ def check_imports(ctx, case, o, payload, flag, where):
 
 
 def strict_equal(a, b):
+    """Same value with the same types at every level."""
     try:
         return pyval.enc(a, canon=True) == pyval.enc(b, canon=True)
     except pyval.Unencodable:
         return False
+    except UnicodeEncodeError:  # a lone surrogate somewhere: compare structurally
+        return json.dumps(a, sort_keys=True) == json.dumps(b, sort_keys=True) and repr(a) == repr(b)
 
 
 # ---- generators ---------------------------------------------------------------------------------------------------
@@ -240,12 +288,28 @@ def random_unicode(rng):
             out.append(rng.choice(LOOKALIKES))
         else:
             cp = rng.choice([rng.randint(0, 0x7f), rng.randint(0x80, 0x7ff), rng.randint(0x800, 0xd7ff),
-                             rng.randint(0xe000, 0xffff), rng.randint(0x10000, 0x10ffff)])
+                             rng.randint(0xe000, 0xffff), rng.randint(0x10000, 0x10ffff),
+                             rng.randint(0xd800, 0xdfff)])  # a lone surrogate: a str Python accepts, no UTF-8 form
             out.append(chr(cp))
     return "".join(out)
 
 
-MALFORMED = [None, True, False, 0, 5, 1.5, "", "a", [], {}, {"0": "a"}, {"a": 1}]
+def model_enc(v):
+    """pyval.enc, or None for a value the codec cannot carry (a string with a lone surrogate has no UTF-8 form;
+    the Lean `Char` type excludes surrogates too): such cases are decided by the monitor alone and counted."""
+    try:
+        return pyval.enc(v)
+    except (pyval.Unencodable, UnicodeEncodeError):
+        return None
+
+
+MALFORMED = [None, True, False, 0, 5, 1.5, "", "a", [], {}, {"0": "a"}, {"a": 1}, {"0": "os.getcwd", "1": []},
+             {"0": CANARY + ".Boom", "1": [], "2": None}]
+INVALID_REGISTERED = ["my class", "Loc\n", "é", "a-b", "x y.z", " ", "ａ"]
+RAISING = ["ZeroDivisionError", "RuntimeError", "OSError", "JrvCustomError", "KeyError", "TypeError", "AssertionError",
+           "StopIteration", "ImportError", "AttributeError"]
+LIBRARY_RAISING = [["fractions.Fraction", [1, 0]], ["decimal.Decimal", ["abc"]], ["fractions.Fraction", ["x/y"]],
+                   ["collections.OrderedDict", [1]], ["datetime.date", [0, 0, 0]], ["array.array", ["?"]]]
 FIRST = [None, 0, 5, True, False, 1.5, [], ["a"], {}, {"a": 1}, "", "é.X", "os.path x"]
 SECOND = [[], {}, None, 5, "s", [1], {"k": 1}]
 
@@ -264,7 +328,11 @@ class PayloadGen(object):
     def __init__(self, rng, env):
         self.rng = rng
         self.env = env
-        self.beans = [s for s in env.specs if s["kind"] == "bean" and not any(x.startswith("unset_") for x in (s["slots"] or []))]
+        self.beans = [s for s in env.specs if s["kind"] == "bean" and not s.get("registered_as")
+                      and not any(x.startswith("unset_") for x in (s["slots"] or []))]
+        self.raising = [s for s in env.specs if s["kind"] == "raising"]
+        self.invalid_registered = [n for s in env.specs for n in s.get("registered_as", [])]
+        self.monitor_only = False  # set when a descriptor the class environment of the model does not describe is generated
 
     def emit_name(self, s):
         return s["name"] if s["module"] in ("", "__main__") else "%s.%s" % (s["module"], s["name"])
@@ -284,9 +352,16 @@ class PayloadGen(object):
                 if not n.startswith("__") and rng.random() < 0.6:
                     d[n] = self.value(depth - 1) if depth > 0 else gen.json_scalar(rng)
             return d, "valid-existing"
-        if r < 0.30:
+        if r < 0.27:
             return {"__jsonclass__": [rng.choice(["nosuchmod_jrv.Cls", "nosuchpkg_jrv.sub.Cls", "os.NoSuchThing", "json.Missing",
                                                   "Unregistered", "a.b.c"]), rng.choice([[], {}, [1]])]}, "valid-missing"
+        if r < 0.30 and self.raising:
+            # a constructor that raises something else than TypeError: the translator "rejects" the payload all the same
+            s = rng.choice(self.raising)
+            if rng.random() < 0.25:
+                self.monitor_only = True
+                return {"__jsonclass__": copy.deepcopy(rng.choice(LIBRARY_RAISING))}, "valid-library-raising"
+            return {"__jsonclass__": [self.emit_name(s), rng.choice([[], {}, [1], {"k": 1}])], "a": 1}, "valid-raising"
         if r < 0.36:
             return {"__jsonclass__": [CANARY + ".Nope", []]}, "valid-canary"
         if r < 0.62:
@@ -294,6 +369,9 @@ class PayloadGen(object):
             return {"__jsonclass__": [mutate_name(rng, base), rng.choice([[], {}, ["id"]])], "a": 1}, "invalid-mutated"
         if r < 0.72:
             return {"__jsonclass__": [random_unicode(rng), []]}, "random-unicode"
+        if r < 0.74 and self.invalid_registered:
+            # a class registered in Config.classes under an invalid name: the name is rejected all the same
+            return {"__jsonclass__": [rng.choice(self.invalid_registered), rng.choice([[], {}])]}, "invalid-registered"
         if r < 0.78:
             return {"__jsonclass__": ["", rng.choice([[], {}])]}, "invalid-empty"
         if r < 0.88:
@@ -345,19 +423,41 @@ class PayloadGen(object):
 
 def make_cfg(env, flag, version=2.0):
     cfg = impl.jsonrpclib.config.Config(version=version, use_jsonclass=flag)
-    for s in env.specs:
-        if s["module"] == "__main__" and s["kind"] != "decimal":
-            cfg.classes.add(env.cls[s["id"]], s["name"])
+    for n, cid in class_pairs(env):
+        cfg.classes.add(env.cls[cid], n)
     return cfg
 
 
 def class_pairs(env):
-    return [[s["name"], s["id"]] for s in env.specs if s["module"] == "__main__" and s["kind"] != "decimal"]
+    """Config.classes: every class of `__main__` under its name, plus the aliases of `registered_as` (invalid names)."""
+    out = []
+    for s in env.specs:
+        if s["module"] == "__main__" and s["kind"] != "decimal":
+            out.append([s["name"], s["id"]])
+            for alias in s.get("registered_as", []):
+                out.append([alias, s["id"]])
+    return out
+
+
+def extra_specs(rng, tag):
+    """Classes whose constructor raises (module-qualified and locally registered) and a counting bean registered in the
+    local class table under invalid names."""
+    out = []
+    for i, exc in enumerate(rng.sample(RAISING, 3)):
+        out.append({"id": "r%d_%s" % (i, tag), "module": "jrvm_%s" % tag if i else "__main__", "name": "Raiser%d" % i, "bases": [],
+                    "slots": None, "kind": "raising", "raises": exc, "class_attrs": {}})
+    out.append({"id": "inv_%s" % tag, "module": "__main__", "name": "InvalidlyNamed", "bases": [], "slots": None, "kind": "bean",
+                "own": [("hits", 0)], "class_attrs": {}, "registered_as": rng.sample(INVALID_REGISTERED, 4)})
+    return out
 
 
 def model_line(env, flag, value):
+    """The driver line, or None when the codec cannot carry the value (lone surrogates)."""
+    v = model_enc(value)
+    if v is None:
+        return None
     return "rpcload %s %s %s %s" % ("T" if flag else "F", pyval.enc(class_pairs(env)),
-                                    env.enc([env.lean_classes(), ["os", "json", "decimal", CANARY]]), pyval.enc(value))
+                                    env.enc([env.lean_classes(), ["os", "json", "decimal", CANARY]]), v)
 
 
 def parse_model(mo):
@@ -381,16 +481,19 @@ def run(ctx):
     pending = []  # (model line, expectation, case)
     try:
         _names_stream(ctx, pending)
-        n_envs = ctx.budget(6, 24)
+        n_envs = ctx.budget(14, 24)
         per_env = ctx.budget(260, 500)
         for e in range(n_envs):
             specs = jcenv.gen_specs(ctx.rng, gen, "q%d" % e, local_ratio=ctx.rng.choice([0.0, 0.3]))
+            specs = specs[:-2] + extra_specs(ctx.rng, "q%d" % e) + specs[-2:]
             env = jcenv.Env(specs).install()
             try:
                 _run_env(ctx, env, per_env, pending)
             finally:
                 env.uninstall()
         _dump_gate(ctx)
+        _rpc_gates(ctx)
+        _outside_domain(ctx)
     finally:
         canary_teardown()
     outs = ctx.lean([p[0] for p in pending])
@@ -418,14 +521,36 @@ def run(ctx):
     ctx.extra["unmodelled_cases"] = unmodelled
     ctx.exhaustive = False
     ctx.assumptions.append("__import__/getattr are represented by the class environment and the list of importable modules handed to "
-                           "the model; `import` audit events are attributed to the translator when jsonclass.load is on the stack")
+                           "the model; `import` audit events are attributed to the translator when jsonclass.load is on the stack; "
+                           "a static `import x` statement inside jsonclass.py of a module that is already loaded and whose name "
+                           "does not come from the payload is not counted as an effect of decoding")
+    ctx.assumptions.append("domain: class names that resolve to classes (or callables) whose call has no effect beyond raising an "
+                           "Exception or returning an object — a name such as sys.exit resolves to a callable that raises "
+                           "SystemExit, which no `except Exception` of the library catches (%d such cases were run and recorded in "
+                           "the histogram, not judged)" % ctx.extra.get("outside_domain_cases", 0))
+    ctx.assumptions.append("%d cases with a lone surrogate in a string (no UTF-8 form, outside Lean's Char) and %d cases naming "
+                           "library classes the model's class environment does not describe (fractions.Fraction(1, 0), "
+                           "decimal.Decimal('abc'), …) were decided by the monitor alone"
+                           % (ctx.extra.get("uncodable_cases", 0), ctx.extra.get("monitor_only_cases", 0)))
+
+
+def _pend(ctx, pending, env, flag, value, exp, case, monitor_only=False):
+    """Queues the model line of a case; cases the model's class environment / codec cannot describe are counted."""
+    if monitor_only:
+        ctx.extra["monitor_only_cases"] = ctx.extra.get("monitor_only_cases", 0) + 1
+        return
+    line = model_line(env, flag, value)
+    if line is None:
+        ctx.extra["uncodable_cases"] = ctx.extra.get("uncodable_cases", 0) + 1
+        return
+    pending.append((line, exp, case))
 
 
 def _expect_from(o, full):
     if o.kind == "ok":
         try:
             return "ok " + pyval.enc(o.value, canon=True) if full else "ok"
-        except pyval.Unencodable:
+        except (pyval.Unencodable, UnicodeEncodeError):
             return None
     return "err " + type(o.value).__name__
 
@@ -442,7 +567,7 @@ def _names_stream(ctx, pending):
             payload = {"__jsonclass__": [s, params]}
             if ctx.rng.random() < 0.3:
                 payload = [1, {"k": payload}]
-            o = observe(JC.load, copy.deepcopy(payload), None)
+            o = observe(JC.load, copy.deepcopy(payload), None, _payload=payload)
             case = {"side": "direct", "payload": payload, "name": s, "flag": True}
             ok_name = name_ok(s)
             if not ok_name:
@@ -452,10 +577,7 @@ def _names_stream(ctx, pending):
             check_imports(ctx, case, o, payload, True, "direct")
             exp = _expect_from(o, True)
             if exp is not None:
-                try:
-                    pending.append((model_line(env, True, payload), {"result": exp, "imports": o.calls, "full": True, "side": "names"}, case))
-                except pyval.Unencodable:
-                    pass
+                _pend(ctx, pending, env, True, payload, {"result": exp, "imports": o.calls, "full": True, "side": "names"}, case)
             ctx.count(case_repr=case if len(s) == 3 and s[1] == "é" and params == [] and ctx.evaluations < 400 else None,
                       nontrivial_key=("name", "".join("v" if ch in VALID else "x" for ch in s)[:6], exp),
                       kind="names/%s/%s" % ("valid" if ok_name else "invalid", exp.split(" ")[-1] if exp else "?"))
@@ -467,17 +589,22 @@ def _run_env(ctx, env, per_env, pending):
     rng = ctx.rng
     pg = PayloadGen(rng, env)
     for i in range(per_env):
+        pg.monitor_only = False
         d, kind = pg.descriptor(1)
         depth = rng.choice([0, 1, 1, 2, 2, 3])
         payload, path = pg.nest(d, depth)
         flag = rng.random() < 0.6
         side = rng.choice(["loads", "client", "server", "server"])
+        if kind in ("valid-raising", "valid-library-raising") and rng.random() < 0.6:
+            flag, side = True, "server"
         if side == "loads":
-            _side_loads(ctx, env, payload, kind, path, flag, pending)
+            _side_loads(ctx, env, payload, kind, path, flag, pending, pg.monitor_only)
         elif side == "client":
-            _side_client(ctx, env, payload, kind, path, flag, pending)
+            _side_client(ctx, env, payload, kind, path, flag, pending, pg.monitor_only)
         else:
-            _side_server(ctx, env, pg, payload, kind, path, flag, pending)
+            _side_server(ctx, env, pg, payload, kind, path, flag, pending, pg.monitor_only)
+    _deep_nesting(ctx, env)
+    _direct_shapes(ctx, env, pg, pending)
 
 
 def _single_bad(payload):
@@ -498,10 +625,10 @@ def _check_single_bad(ctx, case, o, payload, where):
                     % (where, d["__jsonclass__"][0], type(o.value).__name__), key="invalid-name-wrong-error")
 
 
-def _side_loads(ctx, env, payload, kind, path, flag, pending):
+def _side_loads(ctx, env, payload, kind, path, flag, pending, mo=False):
     cfg = make_cfg(env, flag)
     text = json.dumps(payload)
-    o = observe(impl.jsonrpclib.loads, text, cfg)
+    o = observe(impl.jsonrpclib.loads, text, cfg, _payload=payload)
     case = {"side": "loads", "text": text, "flag": flag, "kind": kind, "path": path}
     check_imports(ctx, case, o, payload, flag, "loads")
     if not flag:
@@ -516,13 +643,13 @@ def _side_loads(ctx, env, payload, kind, path, flag, pending):
         try:
             exp = "ok " + env.enc(o.value, canon=True)
             full = True
-        except pyval.Unencodable:
+        except (pyval.Unencodable, UnicodeEncodeError):
             pass
-    pending.append((model_line(env, flag, json.loads(text)), {"result": exp, "imports": o.calls, "full": full, "side": "loads"}, case))
+    _pend(ctx, pending, env, flag, json.loads(text), {"result": exp, "imports": o.calls, "full": full, "side": "loads"}, case, mo)
     _count(ctx, case, o, kind, path)
 
 
-def _side_client(ctx, env, payload, kind, path, flag, pending):
+def _side_client(ctx, env, payload, kind, path, flag, pending, mo=False):
     """The payload as the result (or the error data) of a reply decoded by a real ServerProxy."""
     cfg = make_cfg(env, flag)
     as_error = ctx.rng.random() < 0.2
@@ -544,7 +671,7 @@ def _side_client(ctx, env, payload, kind, path, flag, pending):
         return handler.reply
 
     proxy = impl.jsonrpclib.jsonrpc.ServerProxy("http://localhost/", transport=impl.LoopTransport(handler), config=cfg, version=version)
-    o = observe(proxy.ping, 1)
+    o = observe(proxy.ping, 1, _payload=payload)
     reply = json.loads(getattr(handler, "reply", "null"))
     case = {"side": "client", "reply": getattr(handler, "reply", None), "flag": flag, "kind": kind, "path": path, "version": version}
     check_imports(ctx, case, o, payload, flag, "client")
@@ -552,9 +679,9 @@ def _side_client(ctx, env, payload, kind, path, flag, pending):
         if as_error:
             if not (o.kind == "err" and type(o.value).__name__ in ("AppError", "ProtocolError")):
                 ctx.violate(case, "use_jsonclass off: error reply gave %s %r" % (o.kind, o.value), key="off-client-error")
-        elif not (o.kind == "ok" and strict_equal(o.value, payload)):
-            ctx.violate(case, "use_jsonclass off: the proxy returned %s %r instead of the JSON result %r" % (o.kind, o.value, payload),
-                        key="off-not-plain-json:client")
+        elif not (o.kind == "ok" and strict_equal(o.value, reply.get("result"))):
+            ctx.violate(case, "use_jsonclass off: the proxy returned %s %r instead of the JSON result %r"
+                        % (o.kind, o.value, reply.get("result")), key="off-not-plain-json:client")
     else:
         d = _single_bad(payload)
         if d is not None and not (o.kind == "err" and type(o.value).__name__ not in ("AppError", "ProtocolError")):
@@ -568,11 +695,11 @@ def _side_client(ctx, env, payload, kind, path, flag, pending):
         exp = "ok"  # decoding succeeded; the error is the reply's
     else:
         exp = _expect_from(o, False)
-    pending.append((model_line(env, flag, reply), {"result": exp, "imports": o.calls, "side": "client"}, case))
+    _pend(ctx, pending, env, flag, reply, {"result": exp, "imports": o.calls, "side": "client"}, case, mo)
     _count(ctx, case, o, kind, path)
 
 
-def _side_server(ctx, env, pg, payload, kind, path, flag, pending):
+def _side_server(ctx, env, pg, payload, kind, path, flag, pending, mo=False):
     """The payload inside a request body handled by _marshaled_dispatch."""
     rng = ctx.rng
     cfg = make_cfg(env, flag)
@@ -603,7 +730,7 @@ def _side_server(ctx, env, pg, payload, kind, path, flag, pending):
     else:
         req = [{"jsonrpc": "2.0", "method": "echo", "id": 1, "params": [1]}, {"jsonrpc": "2.0", "method": "echo", "id": 2, "params": [payload]}]
     body = json.dumps(req)
-    o = observe(disp._marshaled_dispatch, body)
+    o = observe(disp._marshaled_dispatch, body, _payload=req)
     case = {"side": "server", "body": body, "flag": flag, "kind": kind, "path": where + "/" + path}
     check_imports(ctx, case, o, req, flag, "server")
     reply = None
@@ -634,6 +761,7 @@ def _side_server(ctx, env, pg, payload, kind, path, flag, pending):
                     key="bad-descriptor-accepted:server")
     if not flag and where in ("params-list", "params-dict"):
         # nothing is interpreted: the method receives exactly the JSON parameters
+        payload = json.loads(json.dumps(payload))  # as JSON carries it (a surrogate pair becomes one character)
         want = ((payload, 1), {}) if where == "params-list" else ((), {"p": payload})
         if len(invoked) != 1 or not strict_equal([list(invoked[0][0]), invoked[0][1]], [list(want[0]), want[1]]):
             ctx.violate(case, "use_jsonclass off: the method received %r instead of the JSON parameters %r" % (invoked, want),
@@ -646,7 +774,7 @@ def _side_server(ctx, env, pg, payload, kind, path, flag, pending):
     if flag and rejected:
         # class of the exception is not observable through the server; compare the rest
         exp["result"] = None
-    pending.append((model_line(env, flag, json.loads(body)), exp, case))
+    _pend(ctx, pending, env, flag, json.loads(body), exp, case, mo)
     _count(ctx, case, o, kind, where + "/" + path, extra="32700" if is_32700 else ("invoked%d" % len(invoked)))
 
 
@@ -697,6 +825,232 @@ def _dump_gate(ctx):
         ctx.count(kind="dump/proxy/%s/%s" % ("on" if flag else "off", k))
 
 
+def _deep_nesting(ctx, env):
+    """Bodies nested so deeply that the JSON decoder or the translator runs out of stack (RecursionError): the server
+    still answers -32700 (any failure of `loads` does) and no method runs."""
+    d = {"__jsonclass__": [CANARY + ".Boom x", []]}
+    bodies = [("json-decoder", "[" * 100000 + "]" * 100000),
+              ("translator", "[" * 3000 + json.dumps(d) + "]" * 3000),
+              ("translator-dicts", '{"a":' * 3000 + "1" + "}" * 3000)]
+    for label, body in bodies:
+        for flag in (True, False):
+            cfg = make_cfg(env, flag)
+            disp = SimpleJSONRPCDispatcher(config=cfg)
+            invoked = []
+            disp.register_function(lambda *a, **k: invoked.append(1) or 1, "echo")
+            o = observe(disp._marshaled_dispatch, body, _payload=None)
+            case = {"side": "server", "body_py": "%r * %d + ..." % (body[:6], 1), "deep": label, "flag": flag,
+                    "kind": "deep-nesting", "path": label}
+            rejected = True
+            if not flag and label != "json-decoder":
+                # with the flag off only the JSON decoder sees the nesting
+                rejected = impl.outcome(json.loads, body)[0] == "err"
+            if o.kind == "err":
+                ctx.violate(case, "_marshaled_dispatch raised %s on a deeply nested body (%s)" % (type(o.value).__name__, label),
+                            key="server-raises")
+            elif rejected and ("-32700" not in str(o.value) or invoked):
+                ctx.violate(case, "a body that cannot be decoded (%s) was answered %r" % (label, str(o.value)[:200]),
+                            key="rejected-not-32700")
+            ctx.count(kind="server/%s/deep-nesting/%s/%s" % ("on" if flag else "off", label,
+                                                            "32700" if "-32700" in str(o.value) else o.kind))
+
+
+def _direct_shapes(ctx, env, pg, pending):
+    """Descriptor shapes only a direct call of jsonclass.load can be given (JSON has no tuples and no integer keys):
+    tuples, dicts with the keys 0 and 1, further items — with valid, invalid and invalidly-registered names."""
+    rng = ctx.rng
+    cfg = make_cfg(env, True)
+    names = [(n, "valid-existing") for n in pg.valid_names()[:3]] + [(CANARY + ".Nope", "valid-canary")] + \
+            [(mutate_name(rng, b), "invalid-mutated") for b in [CANARY + ".Boom", "os.getcwd"] + pg.valid_names()[:2]] + \
+            [(n, "invalid-registered") for n in pg.invalid_registered[:2]] + [("", "invalid-empty")]
+    for name, kind in names:
+        for params in ([], {}):
+            for member, how in (((name, params), "tuple"), ({0: name, 1: params}, "dict-int-keys"),
+                                ({False: name, 1.0: params, "x": 1}, "dict-bool-float-keys"), ([name, params, "extra", None], "list4"),
+                                ({"0": name, "1": params}, "dict-str-keys")):
+                payload = [1, {"k": {"__jsonclass__": member}}] if rng.random() < 0.4 else {"__jsonclass__": member}
+                o = observe(JC.load, copy.deepcopy(payload), cfg.classes, _payload=payload)
+                case = {"side": "direct-shapes", "payload_enc": model_enc(payload), "payload": repr(payload), "flag": True, "kind": kind,
+                        "path": how, "name": name}
+                check_imports(ctx, case, o, payload, True, "direct")
+                _check_single_bad(ctx, case, o, payload, "direct")
+                exp = _expect_from(o, False)
+                _pend(ctx, pending, env, True, payload, {"result": exp, "imports": o.calls, "side": "direct-shapes"}, case)
+                ctx.count(nontrivial_key=("shape", how, kind, exp), kind="direct/%s/%s/%s" % (how, kind, exp))
+
+
+def _outside_domain(ctx):
+    """Names that resolve to a callable with a side effect: `sys.exit` raises SystemExit, which is no Exception and
+    leaves jsonclass.load, jsonrpclib.loads and _marshaled_dispatch alike.  The property is about classes whose
+    construction has no effect beyond the object (recorded in the trusted base); the outcomes are recorded, not judged
+    — and the check survives them."""
+    env = jcenv.Env([dict(jcenv.DEC_SPEC)])
+    for params in ([], [3]):
+        payload = {"__jsonclass__": ["sys.exit", params]}
+        for side in ("direct", "loads", "server"):
+            if side == "direct":
+                o = observe(JC.load, copy.deepcopy(payload), None, _payload=payload)
+            elif side == "loads":
+                o = observe(impl.jsonrpclib.loads, json.dumps(payload), make_cfg(env, True), _payload=payload)
+            else:
+                disp = SimpleJSONRPCDispatcher(config=make_cfg(env, True))
+                disp.register_function(lambda *a: 1, "echo")
+                o = observe(disp._marshaled_dispatch, json.dumps({"jsonrpc": "2.0", "method": "echo", "id": 1, "params": [payload]}),
+                            _payload=payload)
+            ctx.hist["outside-domain/sys.exit/%s/%s" % (side, type(o.value).__name__ if o.kind == "err" else "ok")] += 1
+    ctx.extra["outside_domain_cases"] = 6
+
+
+# ---- the use_jsonclass gates on every path of a remote call -----------------------------------------------------------
+
+GATE_MOD = "jrv_gate_mod"
+_GATE_CASES = ["bean", "jcdict", "canary"]
+_GATE_MODES = ["positional", "keyword", "notify", "multicall"]
+
+
+def _gate_values():
+    import types
+    if GATE_MOD not in sys.modules:
+        m = types.ModuleType(GATE_MOD)
+
+        class GateBean(object):
+            def __init__(self):
+                self.a = 1
+
+        GateBean.__module__ = GATE_MOD
+        m.GateBean = GateBean
+        sys.modules[GATE_MOD] = m
+    bean_cls = sys.modules[GATE_MOD].GateBean
+    return {"bean": bean_cls(), "jcdict": {"__jsonclass__": [GATE_MOD + ".GateBean", []], "a": 5},
+            "canary": {"__jsonclass__": [CANARY + ".Boom", []], "k": [1]}, "plain": [1, "s"]}
+
+
+def gate_exchange(cflag, sflag, version, mode, pkind, rkind):
+    """One remote call with separate client and server configurations.  -> observation dict"""
+    J = impl.jsonrpclib.jsonrpc
+    vals = _gate_values()
+    cfg_c = impl.jsonrpclib.config.Config(version=version, use_jsonclass=cflag)
+    cfg_s = impl.jsonrpclib.config.Config(version=version, use_jsonclass=sflag)
+    disp = SimpleJSONRPCDispatcher(config=cfg_s)
+    received, sent, replies, results = [], [], [], []
+
+    def meth(*args, **kwargs):
+        received.append(kwargs["x"] if kwargs else args[0])
+        return _gate_values()[rkind] if rkind != "echo" else received[-1]
+
+    disp.register_function(meth, "m")
+
+    def handler(body):
+        sent.append(body)
+        r = disp._marshaled_dispatch(body)
+        replies.append(r)
+        return r
+
+    proxy = J.ServerProxy("http://localhost/", transport=impl.LoopTransport(handler), config=cfg_c, version=version)
+    param = vals[pkind]
+
+    def go():
+        if mode == "positional":
+            results.append(proxy.m(param))
+        elif mode == "keyword":
+            results.append(proxy.m(x=param))
+        elif mode == "notify":
+            proxy._notify.m(param)
+        else:
+            mc = J.MultiCall(proxy, config=cfg_c)
+            mc.m(param)
+            mc._notify.m(param)
+            mc.m(x=param)
+            results.extend(list(mc()))
+
+    payload = [vals["jcdict"], vals["canary"]] if "canary" in (pkind, rkind) else [vals["jcdict"]]
+    o = observe(go, _payload=payload)
+    return {"o": o, "received": received, "sent": sent, "replies": replies, "results": results, "param": param}
+
+
+def gate_verdicts(cflag, sflag, mode, pkind, rkind, x):
+    """What the statement requires of one exchange: [(key, detail)]."""
+    hits = []
+    o = x["o"]
+    json_param = x["param"] if pkind != "bean" else None
+    # nothing is imported or constructed on a side whose flag is off; the canary is named by no side that is on … unless
+    # a side with the flag on decodes it (then its import is the valid descriptor's)
+    decoding_on = (sflag and pkind == "canary" and x["sent"]) or (cflag and rkind == "canary") or \
+                  (cflag and rkind == "echo" and pkind == "canary" and not sflag)
+    if o.canary and not decoding_on:
+        hits.append(("canary:gate", "the canary module was touched (%s) although every side that saw its descriptor has "
+                     "use_jsonclass off" % o.canary))
+    if not cflag:
+        # the client translates nothing: a bean cannot be sent at all, a dict is sent as it is
+        for body in x["sent"]:
+            if pkind == "bean" and "__jsonclass__" in body:
+                hits.append(("off-client-sends-translated", "use_jsonclass off on the client, yet it sent %s" % body[:300]))
+            if json_param is not None:
+                docs = json.loads(body)
+                for doc in (docs if isinstance(docs, list) else [docs]):
+                    p = doc.get("params")
+                    got = p.get("x") if isinstance(p, dict) else (p[0] if p else None)
+                    if not strict_equal(got, json_param):
+                        hits.append(("off-client-param-not-verbatim", "the client sent %r for the parameter %r" % (got, json_param)))
+        # … and what it gets back is the JSON result as it is
+        for body, res_i in zip(x["replies"][-1:], [x["results"]]):
+            if not body:
+                continue
+            docs = json.loads(body)
+            docs = docs if isinstance(docs, list) else [docs]
+            want = [dd.get("result") for dd in docs if isinstance(dd, dict) and "error" not in dd or dd.get("error") is None]
+            want = [w for w, dd in zip(want, docs)]
+            if o.kind == "ok" and len(want) == len(res_i) and not all(strict_equal(a, b) for a, b in zip(want, res_i)):
+                hits.append(("off-client-result-not-verbatim", "the caller got %r for the JSON results %r" % (res_i, want)))
+    if not sflag:
+        # the server interprets nothing: the method receives the JSON parameter as it is …
+        for body, got in zip([b for b in x["sent"]], [x["received"]]):
+            docs = json.loads(body)
+            wants = []
+            for doc in (docs if isinstance(docs, list) else [docs]):
+                p = doc.get("params")
+                wants.append(p.get("x") if isinstance(p, dict) else (p[0] if p else None))
+            if len(wants) != len(got) or not all(strict_equal(a, b) for a, b in zip(wants, got)):
+                hits.append(("off-server-param-not-verbatim", "the method received %r for the JSON parameters %r" % (got, wants)))
+        # … and a result that is not JSON is not translated either
+        for body in x["replies"]:
+            if body and rkind == "bean" and "__jsonclass__" in body:
+                hits.append(("off-server-sends-translated", "use_jsonclass off on the server, yet it replied %s" % body[:300]))
+            if body and rkind in ("jcdict", "canary"):
+                docs = json.loads(body)
+                for doc in (docs if isinstance(docs, list) else [docs]):
+                    if isinstance(doc, dict) and doc.get("error") is None and "result" in doc \
+                            and not strict_equal(doc["result"], _gate_values()[rkind]):
+                        hits.append(("off-server-result-not-verbatim", "the server replied %r for the result %r"
+                                     % (doc["result"], _gate_values()[rkind])))
+    return hits
+
+
+def _rpc_gates(ctx, only=None):
+    """use_jsonclass on/off, independently on the client and on the server, on every path: positional call, keyword
+    call, notification, MultiCall (parameters and results), both protocol versions; parameters and results that are
+    objects, dicts with a "__jsonclass__" member, and the canary descriptor."""
+    for cflag in (False, True):
+        for sflag in (False, True):
+            for version in (1.0, 2.0):
+                for mode in _GATE_MODES:
+                    for pkind in _GATE_CASES:
+                        for rkind in ("echo", "bean", "jcdict", "canary"):
+                            if cflag and sflag and ctx.rng.random() < 0.7 and only is None:
+                                continue  # both on: the translation itself is C07's subject
+                            if only is not None and only != [cflag, sflag, version, mode, pkind, rkind]:
+                                continue
+                            x = gate_exchange(cflag, sflag, version, mode, pkind, rkind)
+                            case = {"side": "gate", "gate": [cflag, sflag, version, mode, pkind, rkind], "flag": cflag,
+                                    "kind": "gate", "path": mode}
+                            for key, detail in gate_verdicts(cflag, sflag, mode, pkind, rkind, x)[:2]:
+                                ctx.violate(case, "client use_jsonclass=%s, server use_jsonclass=%s, version %s, %s call, parameter "
+                                                  "%s, result %s: %s" % (cflag, sflag, version, mode, pkind, rkind, detail), key=key)
+                            outc = "ok" if x["o"].kind == "ok" else type(x["o"].value).__name__
+                            ctx.count(nontrivial_key=("gate", cflag, sflag, version, mode, pkind, rkind, outc),
+                                      kind="gate/c=%s/s=%s/%s/%s" % ("on" if cflag else "off", "on" if sflag else "off", mode, outc))
+
+
 # ---- replay -------------------------------------------------------------------------------------------------------
 
 def replay(payload):
@@ -708,23 +1062,54 @@ def replay(payload):
         cfg = impl.jsonrpclib.config.Config(use_jsonclass=flag)
         side = case.get("side")
         if side == "direct":
-            o = observe(JC.load, case["payload"], None)
+            o = observe(JC.load, case["payload"], None, _payload=case["payload"])
             doc = case["payload"]
         elif side == "loads":
-            o = observe(impl.jsonrpclib.loads, case["text"], cfg)
             doc = json.loads(case["text"])
+            o = observe(impl.jsonrpclib.loads, case["text"], cfg, _payload=doc)
         elif side == "client":
             proxy = impl.jsonrpclib.jsonrpc.ServerProxy("http://localhost/", config=cfg, version=case.get("version", 2.0),
                                                         transport=impl.LoopTransport(lambda body: case["reply"]))
-            o = observe(proxy.ping, 1)
             doc = json.loads(case["reply"])
-        elif side == "server":
+            o = observe(proxy.ping, 1, _payload=doc)
+        elif side == "server" and not case.get("deep"):
             disp = SimpleJSONRPCDispatcher(config=cfg)
             invoked = []
             disp.register_function(lambda *a, **k: invoked.append((a, k)) or list(a), "echo")
-            o = observe(disp._marshaled_dispatch, case["body"])
             doc = json.loads(case["body"])
+            o = observe(disp._marshaled_dispatch, case["body"], _payload=doc)
             print("invoked:", invoked)
+        elif side == "gate":
+            print("detail recorded by the check:", payload.get("detail"))
+            g = case["gate"]
+            x = gate_exchange(*g)
+            print("sent:", x["sent"], "\nreplies:", x["replies"], "\nreceived:", x["received"], "\nresults:", x["results"],
+                  "\noutcome:", x["o"].kind, repr(x["o"].value)[:200], "canary:", x["o"].canary or "untouched")
+            hits = gate_verdicts(g[0], g[1], g[3], g[4], g[5], x)
+            for key, detail in hits:
+                print("VIOLATION reproduced [%s]: %s" % (key, detail))
+            if not hits:
+                print("no violation")
+            return 1 if hits else 0
+        elif side == "direct-shapes":
+            doc = pyval.from_tree(pyval.parse(case["payload_enc"])) if case.get("payload_enc") else None
+            if doc is None:
+                print("payload not recorded in the codec:", case.get("payload"))
+                return 0
+            env = jcenv.Env([dict(jcenv.DEC_SPEC)])
+            o = observe(JC.load, copy.deepcopy(doc), None, _payload=doc)
+        elif side == "server" and case.get("deep"):
+            bodies = {"json-decoder": "[" * 100000 + "]" * 100000,
+                      "translator": "[" * 3000 + json.dumps({"__jsonclass__": [CANARY + ".Boom x", []]}) + "]" * 3000,
+                      "translator-dicts": '{"a":' * 3000 + "1" + "}" * 3000}
+            disp = SimpleJSONRPCDispatcher(config=cfg)
+            o = observe(disp._marshaled_dispatch, bodies[case["deep"]], _payload=None)
+            print("outcome:", o.kind, repr(o.value)[:300])
+            if o.kind == "err" or "-32700" not in str(o.value):
+                print("VIOLATION reproduced")
+                return 1
+            print("no violation")
+            return 0
         else:
             print("case:", json.dumps(case)[:1500])
             print(payload.get("detail"))
